@@ -44,12 +44,30 @@ SEEDS64 = [0, 1, 2**32 - 1, 2**32, 2**63, 2**64 - 1, 7, 255, 256]
 SEEDS32 = [0, 1, 2**31, 2**32 - 1, 7, 255, 256, 0x9747b28c]
 
 
+_VIEW = {}
+
+
+def via_view(fn):
+    """The hash of buf[off:off+n] computed INSIDE jitted code, where the slice is a view into the parent
+    buffer (no copy, no terminating NUL): how add_ngram and user kernels call the hash functions."""
+    if fn not in _VIEW:
+        import numba
+        f = getattr(impl.hashes, fn)
+
+        @numba.njit
+        def call(buf, off, n, seed):
+            return f(buf[off:off + n], seed)
+        _VIEW[fn] = call
+    return _VIEW[fn]
+
+
 def gen_calls(rng, reps, max_len=257):
     """Every length 0..max_len `reps` times; keys produced by slicing a larger buffer at
     every alignment offset; repeated calls interleaved (purity)."""
     h = impl.hashes
     calls = []
-    buf = bytes(rng.randrange(256) for _ in range(8)) * 2
+    import numpy as np
+    buf = bytes(rng.randrange(1, 256) for _ in range(8)) * 2          # (non-zero neighbours of every slice)
     for rep in range(reps):
         for n in range(max_len + 1):
             key = gen_key(rng, n)
@@ -59,16 +77,20 @@ def gen_calls(rng, reps, max_len=257):
             s64 = rng.choice(SEEDS64 + [rng.randrange(2**64)])
             s32 = rng.choice(SEEDS32 + [rng.randrange(2**32)])
             fn = ["fasthash64", "fasthash32", "murmur3"][(n + rep) % 3]
+            view = (n + rep) % 2 == 0          # half of the calls hash a view inside jitted code
+            if view:
+                sd = np.uint32(s32) if fn == "murmur3" else np.uint64(s64)
+                vout = int(via_view(fn)(big, off, n, sd))
             if fn == "fasthash64":
-                out = h.fasthash64(key2, s64)
+                out = vout if view else h.fasthash64(key2, s64)
                 calls.append({"fn": fn, "key": list(key), "seed": w(s64, 8), "out": w(out, 8)})
                 again = h.fasthash64(key, s64)
             elif fn == "fasthash32":
-                out = h.fasthash32(key2, s64)
+                out = vout if view else h.fasthash32(key2, s64)
                 calls.append({"fn": fn, "key": list(key), "seed": w(s64, 8), "out": w(out, 4)})
                 again = h.fasthash32(key, s64)
             else:
-                out = h.murmur3(key2, s32)
+                out = vout if view else h.murmur3(key2, s32)
                 calls.append({"fn": fn, "key": list(key), "seed": w(s32, 4), "out": w(out, 4)})
                 again = h.murmur3(key, s32)
             if int(again) != int(out):
